@@ -49,8 +49,23 @@ def _letters(n: int) -> str:
     return s
 
 
+_READER_MEMO: dict = {}
+
+
 def evaluate_reader(src):
     """-> dict(data, titles, sizes, suspicious, closed, resets) read from the Excel object that parse() constructs"""
+    if id(src) not in _READER_MEMO:
+        try:
+            _READER_MEMO[id(src)] = (src, _evaluate_reader(src), None)
+        except AnalysisError as e:
+            _READER_MEMO[id(src)] = (src, None, e)
+    _, got, err = _READER_MEMO[id(src)]
+    if err is not None:
+        raise err
+    return got
+
+
+def _evaluate_reader(src):
     ex = src.cls('Excel')
     if 'parse' not in ex.methods:
         raise AnalysisError('C18', 'Excel.parse not found')
